@@ -944,6 +944,17 @@ Proof.
   rewrite E. f_equal. apply OptionRel.Forall2_eq, HR.
 Qed.
 
+Lemma wb_into_lines_markers_ov b lm :
+  wb_into_lines_markers b = Ok lm -> wb_into_lines_markers (ovb b) = Ok lm.
+Proof.
+  intros H.
+  pose proof (wb_into_lines_markers_sim (wwidth b) (pad_blocks b) (pad_blocks b) (allow_overflow b) true
+                false eq (fun _ => eq_refl) (fun l t => simr_same true false _) (ovb b) b (ovb_Rel b)) as S.
+  rewrite H in S. cbn [simr] in S. destruct S as [(a & E & HR & Hm)|(F & _)]; [|discriminate].
+  rewrite E. f_equal. destruct a as [a1 a2], lm as [l1 l2]. cbn [fst snd] in *. subst a2. f_equal.
+  apply OptionRel.Forall2_eq, HR.
+Qed.
+
 Lemma ttf_ov b :
   take_trailing_fragments (ovb b) =
   (ovb (fst (take_trailing_fragments b)), snd (take_trailing_fragments b)).
@@ -984,8 +995,8 @@ Section PartA.
   Proof.
     intros x y [Ho ->]. unfold flush_wrapping. oprj. destruct (wrapping x) as [w|]; cbn [option_map].
     - rewrite ttf_ov. destruct (take_trailing_fragments w) as [w1 frags]. cbn [fst snd].
-      destruct (wb_into_lines w1) as [ls| | |] eqn:E; mle.
-      rewrite (wb_into_lines_ov _ _ E). cbn [bind rs].
+      destruct (wb_into_lines_markers w1) as [[ls mk]| | |] eqn:E; mle.
+      rewrite (wb_into_lines_markers_ov _ _ E). cbn [bind rs fst snd].
       change (set_wrapping (ovs x) None) with (ovs (set_wrapping x None)).
       rewrite extend_lines_ovs. oprj. split; [|reflexivity].
       destruct (extend_lines_same (map RText ls) (set_wrapping x None)) as [A B].
@@ -1550,8 +1561,8 @@ Qed.
 Lemma km_flush_wrapping s s' : flush_wrapping s = Ok s' -> km s' = km s.
 Proof.
   unfold flush_wrapping. destruct (wrapping s) as [w|]; [|intros H; ok_inv H; reflexivity].
-  destruct (take_trailing_fragments w) as [w1 frags]. intros H. bind_inv H ls Hls. ok_inv H.
-  transitivity (km (extend_lines (set_wrapping s None) (map RText ls))); [reflexivity|].
+  destruct (take_trailing_fragments w) as [w1 frags]. intros H. bind_inv H lm Hlm. ok_inv H.
+  transitivity (km (extend_lines (set_wrapping s None) (map RText (fst lm)))); [reflexivity|].
   rewrite km_extend_lines. reflexivity.
 Qed.
 
@@ -2199,6 +2210,14 @@ Proof.
   - intros b1 _. exact I.
 Qed.
 
+Lemma wb_into_lines_markers_rn b : ovf b -> rn tt_ (wb_into_lines_markers b).
+Proof.
+  intros H. unfold wb_into_lines_markers, wb_flush.
+  eapply rn_bind with (P := ovf).
+  - eapply rn_bind; [apply flush_word_rn, H|]. intros b1 H1. apply flush_line_rn, H1.
+  - intros b1 _. exact I.
+Qed.
+
 (* ---- the sub-renderer: options allow overflow, and so does the pending wrapped block ---- *)
 Definition NI (x : subr) : Prop :=
   o_allow_overflow (sopts x) = true /\
@@ -2227,7 +2246,7 @@ Proof.
   { rewrite ttf_eq. exact Hw. }
   destruct (take_trailing_fragments w) as [w1 frags].
   cbn [fst] in Hw1.
-  eapply rn_bind; [apply wb_into_lines_rn, Hw1|]. intros ls _. cbn [rn].
+  eapply rn_bind; [apply wb_into_lines_markers_rn, Hw1|]. intros [ls mk] _. cbn [rn fst snd].
   pose proof (NI_extend_lines (map RText ls) _ (NI_none x H)) as H1.
   revert H1. apply NI_ext; reflexivity.
 Qed.
